@@ -306,7 +306,7 @@ func genPacket(r *vlib.R, labels []string, qtype, qclass uint16, weird bool) pkt
 // ---------------------------------------------------------------- generator
 
 var scenarios = []string{"pos", "pos", "two", "cn1", "cn2", "cn3", "cnf1", "cnx1", "cns1", "cnl1", "sig", "sig", "cng", "cnu", "cnu", "nx", "nxs", "nd", "ede", "edn",
-	"big", "mid", "sf", "sfe", "ref", "tc", "aa", "nil", "zzz"}
+	"big", "mid", "cnb", "sf", "sfe", "ref", "tc", "aa", "nil", "zzz"}
 
 func uniq(r *vlib.R, k *int) string {
 	*k++
@@ -433,8 +433,8 @@ func genQ1(r *vlib.R, k *int, cfgLine string) (string, string, uint16, uint16, b
 	scn := vlib.Pick(r, scenarios)
 	u := uniq(r, k)
 	name := mixCase(r, scn) + "." + u + "-@.zt."
-	qt := vlib.Pick(r, []int{1, 1, 1, 1, 28, 16, 5, 15, 43, 46, 255, 6, 65280, 0, 41})
-	if scn == "big" || scn == "mid" {
+	qt := vlib.Pick(r, []int{1, 1, 1, 1, 28, 16, 5, 15, 43, 46, 47, 50, 48, 255, 6, 65280, 0, 41})
+	if scn == "big" || scn == "mid" || scn == "cnb" {
 		qt = 16
 	}
 	args := []string{}
@@ -715,6 +715,13 @@ func gen(r *vlib.R, n int, tier string, emit func(string)) {
 							emit(fmt.Sprintf("lad run ex=%d cut=%d fail=%s cd=%d %s nm=%s", ex, cut, fail, cd, cl, uniq(r, &k)))
 							budget--
 						}
+						// DNSSEC-typed questions below a cut: which proof template a DO=0 client gets
+						if cut == 1 && ex == 0 && cd == 0 {
+							for _, qt := range []int{46, 47, 50, 48} {
+								emit(fmt.Sprintf("lad run ex=0 cut=1 fail=%s cd=0 do=%d small=0 qt=%d nm=%s", fail, r.Intn(2), qt, uniq(r, &k)))
+								budget--
+							}
+						}
 						// the gates in front of the ladders (no entry can exist for an unknown type / class;
 						// a cut is recorded for class IN)
 						for _, pre := range []string{"nord", "ecs", "utype", "uclass"} {
@@ -750,6 +757,26 @@ func gen(r *vlib.R, n int, tier string, emit func(string)) {
 		m := 25 + r.Intn(40)
 		if strings.Contains(cfgLine, "crl=0") == false {
 			m = 15 + r.Intn(15)
+		}
+		if erl := erlOf(cfgLine); erl > 0 {
+			// a byte serve that passes the walk and declines late (composed reply larger than the
+			// client's buffer) must not have paid the entry limiter: serve erl+1 times per path
+			for i := 0; i < 3; i++ {
+				scn := vlib.Pick(r, []string{"cnb", "cnb", "mid", "big"})
+				u := uniq(r, &k)
+				for try := 0; try < 200; try++ { // the three names must not share an entry-limiter bucket
+					b0, b1, b2 := bucketOf(scn+"."+u+"-a.zt.", 16, 1, false), bucketOf(scn+"."+u+"-b.zt.", 16, 1, false), bucketOf(scn+"."+u+"-c.zt.", 16, 1, false)
+					if b0 != b1 && b0 != b2 && b1 != b2 {
+						break
+					}
+					u = uniq(r, &k)
+				}
+				line := fmt.Sprintf("e2e q name=%s.%s-@.zt. qt=16 id=%d %s ck=- proto=udp warm=%s shift=%d rep=%d ord=%d", mixCase(r, scn),
+					u, r.Intn(65536), vlib.Pick(r, []string{"edns=0", "usz=512", "usz=600 do=1", "usz=0"}), vlib.Pick(r, []string{"raw", "msg"}),
+					vlib.Pick(r, []int{0, 7, 100}), erl+1, r.Intn(4))
+				emit(line)
+				budget -= 6
+			}
 		}
 		for i := 0; i < m && budget > 0; i++ {
 			// (histories below are not steered to fresh entry-limiter buckets: erl = 0 only)
